@@ -6,15 +6,30 @@ open Conv
 
 (* every message about a call of a chained case is prefixed with the call *)
 let pfx = ref ""
-let mismatch id m = Conv.mismatch id (!pfx ^ m)
-let propfail id m = Conv.propfail id (!pfx ^ m)
+(* names are byte strings (round 4: invalid UTF-8, NUL, CR ...): a report line is printable ASCII, other bytes as \xHH *)
+let printable (s : string) : string =
+  let b = Buffer.create (String.length s) in
+  String.iter (fun c -> if c >= ' ' && c <= '~' then Buffer.add_char b c else Buffer.add_string b (Printf.sprintf "\\x%02x" (Char.code c))) s;
+  Buffer.contents b
+let mismatch id m = Conv.mismatch id (printable (!pfx ^ m))
+let propfail id m = Conv.propfail id (printable (!pfx ^ m))
 
 (* ---------- conversions ---------- *)
 let name_of_sx (s : sx) : z list =
   let a = atom s in
   let n = String.length a in
   if n < 2 || a.[0] <> '"' || a.[n - 1] <> '"' then failwith ("string atom expected: " ^ a);
-  List.init (n - 2) (fun i -> z_of_int (Char.code a.[i + 1]))
+  if not (String.contains a '\\') then List.init (n - 2) (fun i -> z_of_int (Char.code a.[i + 1]))
+  else begin
+    (* the harness writes every byte outside the printable ASCII range, parentheses, the double quote and the backslash as \xHH *)
+    let hex c = match c with '0' .. '9' -> Char.code c - 48 | 'a' .. 'f' -> Char.code c - 87 | 'A' .. 'F' -> Char.code c - 55
+                             | _ -> failwith ("bad escape in string atom: " ^ a) in
+    let rec go i acc =
+      if i >= n - 1 then List.rev acc
+      else if a.[i] = '\\' && i + 3 < n && a.[i + 1] = 'x' then go (i + 4) (z_of_int (16 * hex a.[i + 2] + hex a.[i + 3]) :: acc)
+      else go (i + 1) (z_of_int (Char.code a.[i]) :: acc) in
+    go 1 []
+  end
 let string_of_name (l : z list) : string =
   String.concat "" (List.map (fun c -> String.make 1 (Char.chr (int_of_z c))) l)
 let names_of (s : sx) : z list list = List.map name_of_sx (args s)
@@ -288,6 +303,59 @@ let describe_rows (people : table) (merged : z list list) (r1 : burndownResult) 
       end) out;
   !res
 
+(* ---------- "per aligned tick" for burndown (round 4).  mergeMatrices is opaque in the model, but the inputs of the pair streams
+   are [[2^k]] with sampling = granularity = 1, all bits distinct: the value of a history of result i must land in band = first
+   sample = offset_i of the merged history, where (offset_1, offset_2) = tick_offsets (the extracted function of the model that
+   C18_devs_alignment characterises: whole ticks between the floored begin of result i and the earlier floored begin, the grid
+   counted from Go's zero time as TicksSinceStart / FloorTime do).  (align (rows cols (band value first-sample) ...) ...) is the
+   picture of the real merged global history and of every merged developer's history. *)
+let judge_align id (c1 : common) (c2 : common) (r1 : burndownResult) (r2 : burndownResult) (merged : z list list) (o : sx) =
+  match field_opt "align" o with
+  | None -> ()
+  | Some al ->
+      let hists (r : burndownResult) = List.filter (fun m -> m <> []) (r.br_global :: r.br_ph) in
+      let vals (r : burndownResult) = List.map (fun m -> match m with [[v]] -> int_of_z v | _ -> -1) (hists r) in
+      let v1 = vals r1 and v2 = vals r2 in
+      let m1 = List.fold_left (lor) 0 v1 and m2 = List.fold_left (lor) 0 v2 in
+      let d = int_of_z r1.br_ticksize in
+      let b1 = int_of_z c1.c_begin and b2 = int_of_z c2.c_begin and e1 = int_of_z c1.c_end and e2 = int_of_z c2.c_end in
+      let dom = List.for_all (fun v -> v > 0) (v1 @ v2) && m1 land m2 = 0
+                && d > 0 && d mod 1000000000 = 0 && r1.br_ticksize = r2.br_ticksize
+                && int_of_z r1.br_sampling = 1 && int_of_z r1.br_granularity = 1
+                && int_of_z r2.br_sampling = 1 && int_of_z r2.br_granularity = 1
+                && b1 <> 0 && b2 <> 0 && e1 - b1 >= d / 1000000000 && e2 - b2 >= d / 1000000000 in
+      if dom then
+        match tick_offsets c1.c_begin c2.c_begin r1.br_ticksize with
+        | Ok (o1, o2) ->
+            count "alignment_judged";
+            let o1 = int_of_z o1 and o2 = int_of_z o2 in
+            if o1 <> o2 then count "alignment_judged_offsets_differ";
+            let bad = ref None in
+            List.iteri (fun i h ->
+                if !bad = None then
+                  match list_of_sx h with
+                  | _rows :: cols :: cells ->
+                      let cells = List.map (fun x -> match ints_of_sx x with [b; v; f] -> (b, v, f) | _ -> failwith "align cell") cells in
+                      let total = List.fold_left (fun a (_, v, _) -> a + v) 0 cells in
+                      let p1 = total land m1 and p2 = total land m2 in
+                      if p1 + p2 = total then begin
+                        let exp = List.sort compare (List.filter (fun (_, v) -> v <> 0)
+                                                       (if o1 = o2 then [(o1, p1 + p2)] else [(o1, p1); (o2, p2)])) in
+                        let got = List.sort compare (List.map (fun (b, v, _) -> (b, v)) cells) in
+                        if got <> exp || List.exists (fun (b, _, f) -> f <> b) cells || List.exists (fun (b, _, _) -> b >= int_of_sx cols) cells then
+                          bad := Some (i, p1, p2, cells)
+                      end
+                  | _ -> failwith "align") (args al);
+            (match !bad with
+             | None -> ()
+             | Some (i, p1, p2, cells) ->
+                 propfail id (Printf.sprintf "burndown: the histories of the two results are not added per aligned tick: %s: the lines of the first result (bits %d) belong to band = sample %d and those of the second (bits %d) to %d (whole ticks of %d s between tick 0 of that result and tick 0 of the merged result, ticks counted as FloorTime does; begins %d and %d), the merged history has (band, value, first sample) %s [alignment of tick grids]"
+                                (if i = 0 then "global history" else Printf.sprintf "history of merged developer %d (%s)" (i - 1)
+                                     (try String.concat "" (List.map (fun c -> String.make 1 (Char.chr (int_of_z c))) (List.nth merged (i - 1))) with _ -> "?"))
+                                p1 o1 p2 o2 (d / 1000000000) b1 b2
+                                (String.concat " " (List.map (fun (b, v, f) -> Printf.sprintf "(%d, %d, %d)" b v f) cells))))
+        | _ -> ()
+
 (* big cases go through extracted list functions that are not tail recursive: run with a large stack *)
 let () =
   if Sys.getenv_opt "VERIF_DRIVER_STACK" = None then begin
@@ -422,6 +490,8 @@ let rec judge_case id c =
                             let e = int_of_z (expected_code people r1.br_people r2.br_people r1.br_ph r2.br_ph (z_of_int w)) in
                             if g <> e then Some (w, g, e) else go (w + 1) rest in
                       if List.length gcodes <> nm then Some (-1, List.length gcodes, nm) else go 0 gcodes end in
+                  (* the operands of a chained call are pictured by their codes, not by their real matrices: pairs only *)
+                  if !pfx = "" then judge_align id c1 c2 r1 r2 merged o;
                   let lit = literal_b people r1.br_people merged && literal_b people r2.br_people merged in
                   if lit then count "burndown_literal" else count "burndown_identities_merge";
                   (match bad_hist with
